@@ -15,7 +15,8 @@
    byte reader ignores it).  The decoder describes the byte reader AS REPAIRED by fixes/11_cq_v1_unused_long.patch (the
    unused long of a version-1 image is read only if 8 bytes remain); the behaviour before is kept in Regression_cqcodec.v.
    Items: kind 0 = int64 (two's complement), kind 1 = double holding an integer of magnitude < 2^53 (IEEE-754 binary64
-   pattern computed in integer arithmetic).  Strings are not modelled. *)
+   pattern computed in integer arithmetic), kind 3 = int64 under a descending comparator instance (item v stored as -v).
+   Strings are not modelled. *)
 From Coq Require Import ZArith List Bool Lia.
 From DS Require Import RunnerLib SortedView CqDefs.
 Import ListNotations.
@@ -55,9 +56,11 @@ Definition dbl_int (u : Z) : option Z :=
   let full := 2 ^ 52 + man in
   if full mod 2 ^ (52 - e) =? 0 then Some ((if sgn =? 0 then 1 else -1) * (full / 2 ^ (52 - e))) else None.
 
-Definition item_enc (kind v : Z) : list Z := if kind =? 1 then le 8 (dbl_bits v) else enc_i64 v.
+(* kind 3: quantiles_sketch<int64_t, DirCmp> with the descending comparator instance: item v is stored as -v *)
+Definition item_enc (kind v : Z) : list Z :=
+  if kind =? 1 then le 8 (dbl_bits v) else if kind =? 3 then enc_i64 (- v) else enc_i64 v.
 Definition item_dec (kind : Z) (bs : list Z) : option Z :=
-  if kind =? 1 then dbl_int (from_le bs) else Some (dec_i64 bs).
+  if kind =? 1 then dbl_int (from_le bs) else if kind =? 3 then Some (- dec_i64 bs) else Some (dec_i64 bs).
 
 (* ---------- encoder: serialize() ---------- *)
 Definition flags_of (s : cq) : Z := (if cn s =? 0 then 4 else 0) + 8 + 16.
@@ -181,7 +184,7 @@ Definition cq_enc_doc (kind sv fl : Z) (unused pad : list Z) (s : cq) : list Z :
 (*   20 r           : R = serialize(r) (bytes); the base buffer of r is sorted as a side effect
      21 r r2        : r := deserialize(serialize(r2))  (r keeps r2's ghost log; R = 1, or -1 when the decoder refuses)
      22 r kind bytes: r := deserialize(bytes) as a sketch of item kind [kind]; ghost log empty; S = bytes consumed *)
-Definition codec_kind (kind : Z) : bool := (kind =? 0) || (kind =? 1).
+Definition codec_kind (kind : Z) : bool := (kind =? 0) || (kind =? 1) || (kind =? 3).
 
 Definition cstep (s : st) (o e : line) : st * outline :=
   match o with
